@@ -40,7 +40,7 @@ def expected_word(w):
     if w.startswith("@$(") and w.endswith(")"):
         return ["star:subproc_captured_inject", [["str", x] for x in w[3:-1].split()]]
     if w.startswith("@(") and w.endswith(")"):
-        return ["star:list_of_strs_or_callables", [["py", ast.unparse(ast.parse(w[2:-1], mode="eval").body)]]]
+        return ["star:list_of_strs_or_callables", [["py", ast.unparse(ast.parse("(" + w[2:-1] + ")", mode="eval").body)]]]
     if w.startswith("$") and w[1:].isidentifier():
         return ["env", repr(w[1:])]
     return ["str", w]
@@ -141,6 +141,15 @@ def standin(rep: Report):
         for op, cl, method in TABLE[:2]:
             exp = flatten(["glue", [expected_word(w) for w in g]])
             cases.append({"src": f"{op}echo {''.join(g)} z{cl}\n", "expect": [["str", "echo"], exp, ["str", "z"]], "method": method, "glued": True})
+    # gluing across lines: a nested form or a triple-quoted string that contains a line break is still ONE piece, adjacent to what is
+    # written directly before / after it (the pieces' end line differs from their start line)
+    glue_ml = [("pre", "$(inner\n  a)"), ("--dir=", "@(a,\n   b)", "/bin"), ("pre", "@$(which\n y)", "post"), ("$HOME", "$(inner\n a)"),
+               ("--msg=", '"""hello\nworld"""'), ("-v", "\'\'\'%s\n\'\'\'", "x"), ("a", "![hid\n b]", "c"), ("out/", "@(x\n)", ".txt")]
+    for g in glue_ml:
+        for op, cl, method in TABLE:
+            exp = flatten(["glue", [expected_word(w) for w in g]])
+            cases.append({"src": f"{op}echo {''.join(g)} z{cl}\n", "expect": [["str", "echo"], exp, ["str", "z"]], "method": method, "glued": True})
+            cases.append({"src": f"r = f(1, {op}echo {''.join(g)}{cl})\n", "expect": [["str", "echo"], exp], "method": method, "glued": True})
     rc, out, err = run_py("harness/desugar.py", [], timeout=3600, stdin=json.dumps({"op": "c06", "cases": cases}))
     si = StandIn("word-boundaries", f"{len(cases)} command lines: <= 3 words from a {len(WORDS)}-word pool x 4 spacings x 4 bracket forms, plus {len(glue)} glued forms; arguments compared "
                  "with an independent whitespace splitter")
